@@ -420,6 +420,21 @@ def cases(draw, tier):
         field = draw(st.sampled_from(sorted(BAD_VALUES) + ["combo"] * 4))
         return {"k": k, "s": draw(lattice.one_side("client")),
                 "field": field, "idx": draw(st.integers(0, 7))}
+    if draw(st.integers(0, 4)) == 0:
+        pc = draw(lattice.pair(flavours=("psk",)))
+        pc["k"] = "connect_psk"
+        pc["cred"] = "rsa"
+        k = pc["psk"]
+        k["same_secret"] = k["same_id"] = True
+        if draw(st.booleans()):
+            k["c_hash"] = draw(st.sampled_from(
+                [k["hash"], None if k["hash"] in (None, "sha256")
+                 else k["hash"], "sha256" if k["hash"] is None
+                 else k["hash"]]))
+        k["no_cert"] = draw(st.booleans())
+        for key in ("c_npn", "s_npn", "c_alpn", "s_alpn"):
+            pc[key] = None
+        return pc
     pc = draw(lattice.pair(flavours=("cert",)))
     pc["k"] = "connect"
     pc["cred"] = draw(st.sampled_from(["rsa", "rsa", "ecdsa", "rsa3072"]))
@@ -466,6 +481,21 @@ def explicit(tier, seed):
                         yield {"k": "ortho", "ver": list(v), "field": field,
                                "idx": idx, "who": who, "auth": auth,
                                "tickets": idx % 2 == 1}
+    # external PSK in each configuration form, widest and default-ish
+    # policies, with and without a certificate to fall back to
+    for hs, hc in ((None, None), (None, "sha256"), ("sha256", None),
+                   ("sha256", "sha256"), ("sha384", "sha384")):
+        for no_cert in (True, False):
+            for modes in (["psk_dhe_ke"], ["psk_ke"],
+                          ["psk_dhe_ke", "psk_ke"]):
+                for side in (d, lattice.full_side("client")):
+                    yield {"k": "connect_psk", "flavour": "psk",
+                           "c": copy.deepcopy(side),
+                           "s": copy.deepcopy(side), "cred": "rsa",
+                           "psk": {"hash": hs, "c_hash": hc,
+                                   "same_secret": True, "same_id": True,
+                                   "c_modes": modes, "s_modes": modes,
+                                   "no_cert": no_cert}}
     # every suite the library lists, pinned settings on both sides with the
     # matching credential: the two sides obviously share it
     from props.c01 import negotiable
@@ -552,9 +582,50 @@ def check_ortho(case):
     return good(labels=labels)
 
 
+def check_connect_psk(case):
+    """Both sides hold the same external PSK (identity, secret, hash - the
+    two-element form means SHA-256), share a TLS 1.3 suite with that PRF, a
+    PSK mode and a group: the handshake succeeds, with or without a
+    certificate on the server."""
+    labels = ["connect-psk"]
+    k = case["psk"]
+    c, s = case["c"], case["s"]
+    w = witness(dict(case, cred="rsa"))
+    h_s, h_c = k["hash"] or "sha256", k["c_hash"] or "sha256"
+    ok = w is not None and w[0] == (3, 4) and all_viable(case, w[0]) and \
+        h_s == h_c and k["same_secret"] and k["same_id"] and \
+        [m for m in k["c_modes"] if m in k["s_modes"]]
+    if ok:
+        ok = [su for su in iana.SUITES.values() if su.tls13 and
+              su.prf == h_s and su.cipher_setting in c["cipherNames"] and
+              su.cipher_setting in s["cipherNames"]]
+    if not ok:
+        return good(nt=False, labels=labels + ["unspecified"])
+    copts, sopts = lattice.build_opts(case)
+    try:
+        copts["settings"] = copts["settings"].validate()
+        sopts["settings"] = sopts["settings"].validate()
+    except ValueError:
+        return good(nt=False, labels=labels + ["invalid-settings"])
+    DET.reseed("C19", case.get("salt", 0))
+    p = sc.connect(copts, sopts)
+    form = "%s/%s" % ("2-tuple" if k["hash"] is None else "3-tuple",
+                      "2-tuple" if k["c_hash"] is None else "3-tuple")
+    labels += ["psk-form=" + form,
+               "no-cert" if k.get("no_cert") else "with-cert"]
+    if not p.both_ok:
+        return bad("compatible-settings-fail:psk:%s" % (
+            "no-cert" if k.get("no_cert") else "with-cert"),
+            "shared external PSK (%s, %s), suite, mode and group: client %r "
+            "server %r" % (form, h_s, p.co, p.so), labels=labels)
+    return good(labels=labels)
+
+
 def check(case):    # noqa - extend dispatch with the pinned kind
     if case["k"] == "ortho":
         return check_ortho(case)
+    if case["k"] == "connect_psk":
+        return check_connect_psk(case)
     if case["k"] == "pinned":
         su = iana.SUITES[case["suite"]]
         v = tuple(case["ver"])
